@@ -313,3 +313,153 @@ func c03famF(n int) {
 
 func HarnessC03E()  { c03famE() }
 func HarnessC03F2() { c03famF(2) }
+
+// ---- family G: references nested in arrays of arrays and in slices of arrays
+
+type c03G struct {
+	Val  int64
+	P    *c03G
+	Grid [1][1]*c03G
+	Rows [][1]*c03G
+	M    map[string][1]*c03G
+}
+
+type c03cfgG struct{ R0, R1 *c03G }
+
+func c03famG(n int, full bool) {
+	nodes := make([]*c03G, n)
+	for i := range nodes {
+		nodes[i] = &c03G{Val: zzverif.Int64("val" + strconv.Itoa(i))}
+	}
+	get := func(name string) *c03G {
+		if k := c03pick(name, n); k >= 0 {
+			return nodes[k]
+		}
+		return nil
+	}
+	for i, nd := range nodes {
+		nd.P = get("n" + strconv.Itoa(i) + "P")
+		nd.Grid[0][0] = get("n" + strconv.Itoa(i) + "G")
+		if !full && i > 0 {
+			continue
+		}
+		if zzverif.Choose("n"+strconv.Itoa(i)+"R", 2) == 1 {
+			nd.Rows = [][1]*c03G{{get("n" + strconv.Itoa(i) + "R0")}}
+		}
+		if zzverif.Choose("n"+strconv.Itoa(i)+"M", 2) == 1 {
+			nd.M = map[string][1]*c03G{"k": {get("n" + strconv.Itoa(i) + "Mk")}}
+		}
+	}
+	def := &c03cfgG{R0: nodes[0], R1: get("R1")}
+	c03check("family G (nested arrays)", def, func(c *c03cfgG) []reflect.Value {
+		out := []reflect.Value{reflect.ValueOf(c.R0), reflect.ValueOf(c.R1)}
+		for _, r := range []*c03G{c.R0, c.R1} {
+			if r != nil {
+				out = append(out, reflect.ValueOf(r.P), reflect.ValueOf(r.Grid[0][0]))
+				if len(r.Rows) > 0 {
+					out = append(out, reflect.ValueOf(r.Rows[0][0]))
+				}
+				if r.M != nil {
+					out = append(out, reflect.ValueOf(r.M["k"][0]))
+				}
+			}
+		}
+		return out
+	})
+}
+
+func HarnessC03G2()     { c03famG(2, false) }
+func HarnessC03G2Full() { c03famG(2, true) }
+
+// ---- family H: the whole public path (Config) on a config struct that refers to itself only
+// through slices, maps and arrays (ptrify keeps those field types, so Config terminates), with
+// back-edges to the root config struct itself.
+
+type c03H struct {
+	Val   int64
+	Kids  []*c03H
+	Named map[string]*c03H
+	Pair  [1]*c03H
+}
+
+func c03famH(n int) {
+	nodes := make([]*c03H, n)
+	for i := range nodes {
+		nodes[i] = &c03H{Val: zzverif.Int64("val" + strconv.Itoa(i))}
+	}
+	get := func(name string) *c03H {
+		if k := c03pick(name, n); k >= 0 {
+			return nodes[k]
+		}
+		return nil
+	}
+	for i, nd := range nodes {
+		if zzverif.Choose("n"+strconv.Itoa(i)+"K", 2) == 1 {
+			nd.Kids = []*c03H{get("n" + strconv.Itoa(i) + "K0")}
+		}
+		if zzverif.Choose("n"+strconv.Itoa(i)+"N", 2) == 1 {
+			nd.Named = map[string]*c03H{"k": get("n" + strconv.Itoa(i) + "Nk")}
+		}
+		nd.Pair[0] = get("n" + strconv.Itoa(i) + "P0")
+	}
+	def := nodes[0]
+	d, err := Config(context.Background(), def)
+	zzverif.Assert(err == nil && d != nil, "C03 family H: Config failed on a cyclic graph")
+	if err != nil || d == nil {
+		return
+	}
+	got := d.View()
+	zzverif.Assert(got != nil && got != def, "C03 family H: the view is not a fresh root")
+	if got == nil {
+		return
+	}
+	zzverif.Assert(reflect.DeepEqual(got, def), "C03 family H: the stacked config is not deeply equal to the supplied graph")
+	slots := func(c *c03H) []reflect.Value {
+		out := []reflect.Value{reflect.ValueOf(c)}
+		seen := map[*c03H]bool{}
+		var walk func(p *c03H, depth int)
+		walk = func(p *c03H, depth int) {
+			out = append(out, reflect.ValueOf(p))
+			if p == nil || seen[p] || depth > 3 {
+				return
+			}
+			seen[p] = true
+			if len(p.Kids) > 0 {
+				walk(p.Kids[0], depth+1)
+			} else {
+				out = append(out, reflect.ValueOf((*c03H)(nil)))
+			}
+			if p.Named != nil {
+				walk(p.Named["k"], depth+1)
+			} else {
+				out = append(out, reflect.ValueOf((*c03H)(nil)))
+			}
+			walk(p.Pair[0], depth+1)
+		}
+		walk(c, 0)
+		return out
+	}
+	in, out := slots(def), slots(got)
+	zzverif.Assert(len(in) == len(out), "C03 family H: the copied graph has a different shape")
+	if len(in) != len(out) {
+		return
+	}
+	for i := range in {
+		zzverif.Assert(in[i].IsNil() == out[i].IsNil(), "C03 family H: a nil reference became non-nil or vice versa")
+		if in[i].IsNil() || out[i].IsNil() {
+			continue
+		}
+		zzverif.Assert(in[i].Pointer() != out[i].Pointer(), "C03 family H: a reference in the result aliases the input")
+		for j := i + 1; j < len(in); j++ {
+			if in[j].IsNil() || out[j].IsNil() {
+				continue
+			}
+			same := in[i].Pointer() == in[j].Pointer()
+			zzverif.Assert(same == (out[i].Pointer() == out[j].Pointer()), "C03 family H: references that were identical in the input are not identical in the result (or vice versa): slots "+strconv.Itoa(i)+","+strconv.Itoa(j))
+		}
+	}
+	zzverif.Reached("c03h-end")
+}
+
+func HarnessC03H1() { c03famH(1) }
+func HarnessC03H2() { c03famH(2) }
